@@ -28,6 +28,7 @@ EXPLANATION = (
     "bases 0x200/0x180; R7 load_configuration reads from the dictionary then saves, generic loop skips 0x1400-0x1BFF; "
     "R8 the dictionary value source prefers value over default by `is not None` (0 is a legal value); R11 ODVariable.__len__ per data type (default mapping length; shared with C04.R5); R10 structural assumptions shared by all properties: no class-level mutable object is mutated in place by instances, no method re-runs the constructor, logging statements cannot raise (typed eager formatting, divisions), no mutable default argument is kept or mutated, no new truth-value test of a None-able number."
     ' R6 also: PdoMaps.__init__ covers all 512 communication records; R2 also: every mapping entry is a new PdoVariable.'
+    ' R10 includes the lock clauses (no SDO exchange while holding a lock a receive callback takes).'
 )
 ASSUMPTIONS = [
     "not decided: device behaviour and SDO outcomes; a store inside try/except SdoAbortedError counts as attempted",
